@@ -330,9 +330,12 @@ def run(ctx):
             # the region between the per-transaction pool refresh and the checkout
             rm__ = [c.block for c in h.calls("pgcat::messages::read_message")]
             fwd_ = set()
-            for g_ in gp_:
-                if h.dominates(g_.block, gets_[0].block) and g_.target is not None:
-                    fwd_ |= set(h.reach([g_.target], avoid_blocks=rm__ + [gets_[0].block]))
+            # the refresh right before the checkout: the last get_pool that dominates it (since D61 the pool is also re-resolved when the message
+            # is read, before the routing decision - that one is not the region's start)
+            dom_ = [g_ for g_ in gp_ if h.dominates(g_.block, gets_[0].block) and g_.target is not None]
+            last_ = [g_ for g_ in dom_ if not any(o_ is not g_ and h.dominates(g_.block, o_.block) for o_ in dom_)]
+            for g_ in last_:
+                fwd_ |= set(h.reach([g_.target], avoid_blocks=rm__ + [gets_[0].block]))
             bwd_ = set(h.backreach([gets_[0].block], avoid_blocks=rm__))
             between = [c for c in h.calls(*sorted(role_writers)) if c.block in fwd_ and c.block in bwd_]
             r4.check(not between, "role-stable-until-checkout", "no QueryRouter method that writes the role is called between the pool refresh and the checkout (writers: %s)" % sorted(x.split("::")[-1] for x in role_writers),
